@@ -728,7 +728,7 @@ fn exhaustive(kind: &str, cfg: &Value, len: usize, reduced: bool, cases: &mut Ve
 fn gen_cases(rng: &mut Rng, tier: Tier) -> Vec<Value> {
     let thorough = tier == Tier::Thorough;
     let mut cases = vec![];
-    let (n_seq, max_ops) = if thorough { (20_000, 400) } else { (1600, 60) };
+    let (n_seq, max_ops) = if thorough { (20_000, 400) } else { (4000, 60) };
     for i in 0..n_seq {
         // most sequences short (they find the boundary cases), some long
         let m = if i % 4 == 0 { max_ops } else { 25 };
@@ -738,10 +738,10 @@ fn gen_cases(rng: &mut Rng, tier: Tier) -> Vec<Value> {
             _ => rosomaxa_case(rng, m),
         });
     }
-    for _ in 0..(if thorough { 1500 } else { 120 }) {
+    for _ in 0..(if thorough { 1500 } else { 300 }) {
         cases.push(solve_case(rng, if thorough { 300 } else { 60 }));
     }
-    for _ in 0..(if thorough { 300 } else { 24 }) {
+    for _ in 0..(if thorough { 300 } else { 40 }) {
         cases.push(vrp_case(rng));
     }
     let greedy_cfgs = [json!({"sel": 1, "init": null}), json!({"sel": 2, "init": [0, 2, 100]})];
